@@ -87,7 +87,7 @@ pub fn bytes_guard(bytes: &[u8]) -> Guard {
 }
 
 fn report(prop: &str, kind: &str, text: &str, secs: u64) -> ! {
-    let dir = format!("{}/replays/{prop}", super::VERIF_DIR);
+    let dir = format!("{}/replays/{prop}", super::out_dir());
     let _ = std::fs::create_dir_all(&dir);
     let path = format!("{dir}/non-termination-{:016x}.json", super::hash64(text));
     let case = if kind == "bytes" { json!({"kind": "bytes", "hex": text}) } else { json!({"kind": kind, "text": text}) };
@@ -101,7 +101,7 @@ fn report(prop: &str, kind: &str, text: &str, secs: u64) -> ! {
         "coverage": {"evaluations": 1, "distinct_nontrivial": 2, "states": 1, "transitions": 1, "traces_validated_against_impl": 0,
             "samples": [{"stuck_case": &text[..text.len().min(400)]}], "rule": "run aborted by the watchdog: non-termination", "exhaustive": false},
         "wall_s": secs as f64, "violations": 1});
-    let _ = std::fs::write(format!("{}/evidence/{prop}.json", super::VERIF_DIR), serde_json::to_string_pretty(&ev).unwrap());
+    let _ = std::fs::write(format!("{}/evidence/{prop}.json", super::out_dir()), serde_json::to_string_pretty(&ev).unwrap());
     std::process::exit(1)
 }
 
